@@ -109,6 +109,28 @@ EXTRA = {
 for _k, _v in EXTRA.items():
     CLAIMS[_k] = (CLAIMS[_k][0], CLAIMS[_k][1] + _v, CLAIMS[_k][2])
 
+# additions of round 4
+EXTRA4 = {
+ "C01": " Also: the load path removes rows only in the trailing-step trim (rules shared with C12, incl. the fewer-than-two-steps guard) and the aligned time columns keep a full-width dtype.",
+ "C02": " Also: every pair of the join is written (the link frame is not filtered between the join and the two stores); the trim applies no time condition of its own to the device side.",
+ "C03": " Also: no early exit in front of the scan that depends on the number of events (other than none); the published parent column takes the correlation link for device rows only.",
+ "C04": " compute_time is decided on every path of the per-rank function.",
+ "C05": " Per-rank loops are independent (no container filled by one rank's iteration is read by a later one).",
+ "C06": " A facade default is never resolved from a single rank's trace.",
+ "C08": " Also: the aligned time columns keep a full-width dtype; a memoised parameterless reader of an option is a violation.",
+ "C09": " The edge of every consecutive pair of path nodes is collected unconditionally.",
+ "C10": " Row-wise classification functions are row-local; the symbol decoder keeps no module-level state.",
+ "C11": " No function of the symbol-table module keeps module- or class-level state.",
+ "C12": " Later rewrites of the iteration column keep every value (no narrowing cast).",
+ "C13": " Also: stack selection is rank-scoped; a re-parenting move updates parent, new parent's children and every old parent's children.",
+ "C14": " Every series row becomes exactly one counter event.",
+ "C15": " The launch-name set is extracted also through the shared launch query.",
+ "C17": " Summary columns stay signed and full-width; default rank / iteration are the numerically smallest.",
+ "C19": " The pickled payload is not edited between creation and dump, nor between load and installation; recomputation on a restored graph rebuilds the edge set.",
+}
+for _k, _v in EXTRA4.items():
+    CLAIMS[_k] = (CLAIMS[_k][0], CLAIMS[_k][1] + _v, CLAIMS[_k][2])
+
 REASON_WIP = "checker under construction in this session (see DESIGN.md section 3); not claimed until its check is committed"
 
 
